@@ -95,6 +95,7 @@ def _correspondence_once(ctx, rep=0):
                 ctx.disagree('C07/identity-bitwise', {'entry': j.e.name, 'inverse': j.inverse}, got[:8], want[:8], 'identity features are not bit-identical to the inputs')
     context_history(ctx, gen)
     mask_history(ctx, gen)
+    held_results(ctx, gen)
 
 
 def context_history(ctx, gen, report=None):
@@ -125,6 +126,76 @@ def context_history(ctx, gen, report=None):
             elif bad:
                 report('the second of two no-grad calls with the same inputs and a different context returns what the first context gave', case,
                        {'class': e.name.split('/')[0], 'symptom': 'context-ignored'})
+
+
+def held_results(ctx, gen, report=None):
+    """results are VALUES: under no_grad, the outputs of a first call, still held by the caller, keep their identity features (and
+    everything else) after the same layer is called again on other inputs, and a call does not write into its argument; and on a LONG
+    batch (5000 rows, a context) the conditioner is given, for every row, that row's identity features and that row's context"""
+    done = set()
+    for e in mask_entries(ctx):
+        cls = e.name.split('/')[0]
+        key = (cls, e.ctx is not None, len(e.in_shape))
+        if key in done:
+            continue
+        done.add(key)
+        t = tcorr.build(e, gen, torch.float64, 'normal')
+        mask = e.extra['mask']
+        ident = [i for i, m in enumerate(mask) if m <= 0]
+        for inverse in (False, True):
+            x1 = R.make_inputs(e, 3, gen, torch.float64, inverse)
+            x2 = R.make_inputs(e, 3, gen, torch.float64, inverse)
+            c1 = R.make_context(e, 3, gen, torch.float64)
+            c2 = R.make_context(e, 3, gen, torch.float64)
+            f = t.inverse if inverse else t.forward
+            try:
+                with torch.no_grad():
+                    a1 = x1.clone()
+                    y1, l1 = f(a1, c1) if c1 is not None else f(a1)
+                    y1c, l1c = y1.clone(), l1.clone()
+                    a2 = x2.clone()
+                    y2, l2 = f(a2, c2) if c2 is not None else f(a2)
+            except Exception:
+                continue
+            case = {'entry': e.name, 'mask': mask, 'inverse': inverse, 'history': ['y1 = call(x1)', 'y2 = call(x2)', 'read y1'],
+                    'x1': x1.reshape(-1).tolist()[:12], 'x2': x2.reshape(-1).tolist()[:12]}
+            bad = None
+            if not torch.equal(y1[:, ident], x1[:, ident]) or not torch.equal(y1, y1c) or not torch.equal(l1, l1c):
+                bad = 'the result of a first no-grad call, still held, changed when the layer was called again: its identity features are no longer the inputs it was computed from'
+            elif not torch.equal(a1, x1) or not torch.equal(a2, x2):
+                bad = 'a no-grad call wrote into its input tensor'
+            if report is None:
+                ctx.case(key=('held', e.name, inverse), branch='held-results', nontrivial=True, n=int(x1.numel()))
+                if bad:
+                    ctx.disagree('C07/held-results', case, bad, 'unchanged', bad)
+            elif bad:
+                report(bad, case, {'class': cls, 'symptom': 'held-result-changed'})
+        if e.ctx is None or len(e.in_shape) != 1:
+            continue
+        N = 5000
+        x = R.make_inputs(e, N, gen, torch.float64, False)
+        c = R.make_context(e, N, gen, torch.float64)
+        rec = R.Recorder(t.transform_net)
+        with torch.no_grad():
+            kind, y, ld = R.impl_call(t, x, c, False)
+        rec.close()
+        if kind != 'ok' or not rec.calls or any(len(call[0]) < 2 or not torch.is_tensor(call[0][1]) for call in rec.calls):
+            continue
+        got_id = torch.cat([call[0][0] for call in rec.calls], 0)
+        got_c = torch.cat([call[0][1] for call in rec.calls], 0)
+        bad = None
+        if got_id.shape != x[:, ident].shape or not torch.equal(got_id, x[:, ident]):
+            bad = 'on a batch of %d rows the conditioner was not given the identity features row by row' % N
+        elif got_c.shape != c.shape or not torch.equal(got_c, c):
+            r = int((got_c != c).any(1).nonzero()[0]) if got_c.shape == c.shape else -1
+            bad = 'on a batch of %d rows the conditioner was given, for row %d, the context of another row' % (N, r)
+        case = {'entry': e.name, 'mask': mask, 'rows': N, 'conditioner_calls': len(rec.calls)}
+        if report is None:
+            ctx.case(key=('long-context', e.name), branch='long-batch-context', nontrivial=True, n=N)
+            if bad:
+                ctx.disagree('C07/long-batch-context', case, bad, 'row-aligned', bad)
+        elif bad:
+            report(bad, case, {'class': cls, 'symptom': 'context-row-mismatch'})
 
 
 def mask_history(ctx, gen, report=None):
@@ -227,6 +298,9 @@ def search(ctx):
     seen_ch = set()
     context_history(ctx, torch.Generator().manual_seed(ctx.seed + 78),
                     report=lambda what, case, match: (ctx.fail(what, case, match=match), seen_ch.add(match['class'])) if match['class'] not in seen_ch else None)
+    seen_hr = set()
+    held_results(ctx, torch.Generator().manual_seed(ctx.seed + 80),
+                 report=lambda what, case, match: (ctx.fail(what, case, match=match), seen_hr.add((match['class'], match['symptom']))) if (match['class'], match['symptom']) not in seen_hr else None)
     seen_mh = set()
     mask_history(ctx, torch.Generator().manual_seed(ctx.seed + 79),
                  report=lambda what, case, match: (ctx.fail(what, case, match=match), seen_mh.add(match['class'])) if match['class'] not in seen_mh else None)
